@@ -23,7 +23,7 @@ Definition lens_eqb (a : list (option nat)) (b : list nat) : bool :=
 
 Definition wf_residual (block_size order : N) (r : residual) : bool :=
   let po := N.log2 (N.of_nat (length (r_parts r))) in
-  (r_method r <? 2) && (po <? 16) &&
+  (r_method r <? 2) && (po <? 16) && (block_size mod 2 ^ po =? 0) &&
   lens_eqb (struct_part_lens block_size order po) (map part_len (r_parts r)) &&
   forallb (wf_part (r_method r)) (r_parts r).
 
